@@ -7,7 +7,7 @@
    rejected by its guards - and leads from configuration [c] to [c1]. *)
 From Coq Require Import List Arith Bool.
 Import ListNotations.
-From PySM Require Import Impl.Engine Proofs.EngineFrame Proofs.EngineProofs Proofs.EngineRefine.
+From PySM Require Import Impl.Engine Proofs.EngineFrame Proofs.EngineProofs Proofs.EngineRefine Proofs.WritesLocal.
 
 (* the first candidate, in declaration order, that is bound to the event and whose activation
    executes (guards hold) is the one that fires, with its result *)
@@ -84,6 +84,37 @@ Theorem C01_fired_stores_target :
   forall t td c, act_effect t c (activate beh nested rm t td c).
 Proof. exact activate_effect. Qed.
 Print Assumptions C01_fired_stores_target.
+
+(* the same two statements under LOCAL hypotheses: only the callbacks the candidates themselves can run are
+   required not to assign the state through the low-level API ([quiet]); every other callback of the machine may *)
+Theorem C01_rejected_keep_state_local :
+  forall beh nested rm, (forall td c, Rres grows c (nested td c)) ->
+  forall e td cands c c1,
+    (forall t, In t cands -> quiet beh (all_cbs (atrans_of rm t))) ->
+    Skipped beh nested rm e td cands c c1 ->
+    field c1 = field c /\ locked c1 = locked c /\ exists q, queue c1 = queue c ++ q.
+Proof. exact skipped_grows_local. Qed.
+Print Assumptions C01_rejected_keep_state_local.
+
+Theorem C01_state_after_event_local :
+  forall beh nested rm, (forall td c, Rres grows c (nested td c)) ->
+  forall cands e s td c,
+    (forall t, In t cands -> quiet beh (all_cbs (atrans_of rm t))) ->
+    match try_candidates beh nested rm cands e s td c with
+    | Ok c' _ => field c' = field c \/ exists t, In t cands /\ matches t e = true /\ field c' = Some (rt_tgt t)
+    | Exn c' (XNotAllowed e' s') => e' = e /\ s' = s /\ field c' = field c
+                                    \/ (exists t, In t cands /\ (field c' = field c \/ field c' = Some (rt_tgt t)))
+    | Exn c' _ => exists t, In t cands /\ matches t e = true /\ (field c' = field c \/ field c' = Some (rt_tgt t))
+    | Fuel => True
+    end.
+Proof. exact try_candidates_field_local. Qed.
+Print Assumptions C01_state_after_event_local.
+
+Theorem C01_fired_stores_target_local :
+  forall beh nested rm, (forall td c, Rres grows c (nested td c)) ->
+  forall t td c, quiet beh (all_cbs t) -> act_effect t c (activate beh nested rm t td c).
+Proof. exact activate_effect_local. Qed.
+Print Assumptions C01_fired_stores_target_local.
 
 (* the faithful entry point (put, try-lock, drain; re-entrant sends lose the try-lock) computes
    exactly what the documented run-to-completion engine computes, so the theorems above, stated for
